@@ -14,7 +14,7 @@
 (*   "fewvotes"  LastCommit that does not hold +2/3 of the set in force (votes removed, only    *)
 (*               the quorum of the OTHER validator-set epoch, bad signature, other block id)   *)
 (*   "voteidx"   LastCommit whose votes carry a wrong validator index/address (signatures intact)*)
-(*   "nilpart"   LastCommit or Data missing (nil)                                              *)
+(*   "nilpart"   LastCommit missing (nil)                                                     *)
 (*   "nilhdr"    no block / no header in the response                                          *)
 (* Every class except "good" changes the bytes of the block, hence its BlockID.                *)
 (*                                                                                            *)
